@@ -180,7 +180,7 @@ CHECKS["C20"] = {
 CHECKS["C17"] = {
     "engine": "E1 lattice explorer",
     "jobs": lambda tier: [job("C17.cpp", "C17")],
-    "rule": "states = distinct floating-point inputs; unit = one exponent of the mantissa/exponent lattice (tau = +-m 2^e, T = m 2^e, 16 four-bit mantissas, e in [-60,19], capped at 1e6) or one exponent of the approach lattices c +- m 2^e, e in [-52,-1], towards each critical point c, or one block of 8192 CONSECUTIVE doubles around a critical point (tau around 0 incl. denormals and both signs, +-1, +-1e6; T around 1, 1e-6, 1e6); at every point: toTime > 0 and equal to the closed form (1e-14), toTime(tau) <= toTime(next double), toTime(tau + 16 ulp) > toTime(tau), backward = g T'(tau) (1e-14), linear in g and exactly homogeneous for g = +-2^k, k in [-900, 900], toTau(toTime tau) = tau and toTime(toTau T) = T (1e-12), toTau monotone; one-sided derivatives and difference quotients at the switch; identity map bitwise; the maps as the optimizer uses them: for ALL words of length <= 3 over the durations {1 ms, 1 ms (1+2^-31), 1-2^-32, 1, 1+2^-31, 3600 s} the time block of generateInitialGuess() is toTau(T_i) and evaluate() decodes x_i to toTime(x_i), entry by entry (bitwise); non-trivial = every unit Part (5) also: decode at the initial guess, below it (durations under 1 ms) and after a warm start is toTime(x_i) bitwise; with an energy weight the time entries of the gradient are backward(x_i, T_i, dCost/dT_i) of the workspace's complete duration gradient (bitwise); an optimizer assigned after other use hands out toTau of the new durations.",
+    "rule": "states = distinct floating-point inputs; unit = one exponent of the mantissa/exponent lattice (tau = +-m 2^e, T = m 2^e, 16 four-bit mantissas, e in [-60,19], capped at 1e6) or one exponent of the approach lattices c +- m 2^e, e in [-52,-1], towards each critical point c, or one block of 8192 CONSECUTIVE doubles around a critical point (tau around 0 incl. denormals and both signs, +-1, +-1e6; T around 1, 1e-6, 1e6); at every point: toTime > 0 and equal to the closed form (1e-14), toTime(tau) <= toTime(next double), toTime(tau + 16 ulp) > toTime(tau), backward = g T'(tau) (1e-14), linear in g and exactly homogeneous for g = +-2^k, k in [-900, 900], toTau(toTime tau) = tau and toTime(toTau T) = T (1e-12), toTau monotone; one-sided derivatives and difference quotients at the switch; identity map bitwise; the maps as the optimizer uses them: for ALL words of length <= 3 over the durations {1 ms, 1 ms (1+2^-31), 1-2^-32, 1, 1+2^-31, 3600 s} the time block of generateInitialGuess() is toTau(T_i) and evaluate() decodes x_i to toTime(x_i), entry by entry (bitwise); non-trivial = every unit Part (5) also: decode at the initial guess, below it (durations under 1 ms) and after a warm start is toTime(x_i) bitwise; with an energy weight the time entries of the gradient are backward(x_i, T_i, dCost/dT_i) of the workspace's complete duration gradient (within 8 ulp: backward(x, T, 1) * g is an equally correct use); an optimizer assigned after other use hands out toTau of the new durations.",
     "bounds": {"quick": "2560 lattice points (4-bit mantissas) + approach lattices + 2^17 consecutive doubles around each of 8 critical points", "thorough": "40960 lattice points (8-bit mantissas) + approach lattices + 2^21 consecutive doubles around each of 8 critical points"},
     "thresholds": {"closed form / backward": 1e-14, "round trips": 1e-12, "monotone": "exact between adjacent doubles; strict at 16 ulp"},
     "assumptions": ASSUME_COMMON,
